@@ -32,7 +32,7 @@ ANCHORS = [
 RULE = (
     "full product: classifier menu {TSF, RISE, STSF, IndividualBOSS, BOSSEnsemble, "
     "ContractableBOSS, MUSE (1 and 2 columns), ColumnEnsemble (2 columns), IndividualTDE (1 and 2 columns)} (thorough: a second "
-    "parameterisation of each) x label set {0,1},{1,2,3},{a,b},{b,a,c} (listed unsorted),"
+    "parameterisation of each) x label set {0,1},{1,2,3},{a,b},{b,a,c} (listed unsorted; + strings of unequal length for the first parameterisation),"
     "{-1,5,20},{0.5,1.5} x {balanced, 3:1} x panel (6 = 3 value families x {12,16} training "
     "instances, 24 time points - MUSE 16 in the quick tier; thorough 12 = + length 30) x random_state {0,1,2}; plus the forest regressor "
     "over panel x random_state; the two forests again on panels shifted to level 1e7 and 1e8; a "
@@ -104,6 +104,15 @@ def gen_cases(tier, seed):
                 yield dict(kind="clf", est=name, opt=0, cols=P.CLF_COLS[name][-1], labels=lab,
                            balanced=True, fam=fam, n=n, L=Lc, rs=rs, xc="nested", yseries=False,
                            prefit=True)
+    # string labels of unequal length (fixed-width numpy string arrays cut longer labels)
+    for name in P.CLASSIFIERS:
+        for lab in ("uneq2", "uneq3"):
+            for rs in (0, 1):
+                for p_, (fam, n, L) in enumerate(panels[:2]):
+                    Lc = 16 if (name == "MUSE" and tier == "quick") else L
+                    yield dict(kind="clf", est=name, opt=0, cols=P.CLF_COLS[name][-1], labels=lab,
+                               balanced=True, fam=fam, n=n, L=Lc, rs=rs,
+                               xc=("nested", "numpy")[(rs + seed) % 2], yseries=bool(p_))
     # a column ensemble one of whose entries is "drop" (skipped at fit)
     for lab in ("01", "bac"):
         for rs in (0, 1):
